@@ -16,11 +16,28 @@ void module_constructor(const char name[])
     sim_note("EV ctor-begin %s", name);
     d = getenv(key);
     if (d && *d) {
-        char *c = strdup(d), *t, *sv;
-        for (t = strtok_r(c, ",", &sv); t; t = strtok_r(NULL, ",", &sv)) {
-            /* module_depends keeps the pointer: leak the copy on purpose */
-            module_depends(strdup(t), NULL);
-            sim_note("EV dep-return %s %s", name, t);
+        char *c = strdup(d), *t, *sv, *nm[8];
+        int n = 0, i;
+        char mkey[96];
+        snprintf(mkey, sizeof mkey, "VERIF_DEPMODE_%s", name);
+        for (t = strtok_r(c, ",", &sv); t && n < 8; t = strtok_r(NULL, ",", &sv))
+            nm[n++] = strdup(t);    /* module_depends keeps the pointers: leaked on purpose */
+        if (getenv(mkey) && n >= 2 && n <= 6) {
+            /* all dependencies declared in ONE call, as the API allows */
+            switch (n) {
+            case 2: module_depends(nm[0], nm[1], NULL); break;
+            case 3: module_depends(nm[0], nm[1], nm[2], NULL); break;
+            case 4: module_depends(nm[0], nm[1], nm[2], nm[3], NULL); break;
+            case 5: module_depends(nm[0], nm[1], nm[2], nm[3], nm[4], NULL); break;
+            default: module_depends(nm[0], nm[1], nm[2], nm[3], nm[4], nm[5], NULL); break;
+            }
+            for (i = 0; i < n; i++)
+                sim_note("EV dep-return %s %s", name, nm[i]);
+        } else {
+            for (i = 0; i < n; i++) {
+                module_depends(nm[i], NULL);
+                sim_note("EV dep-return %s %s", name, nm[i]);
+            }
         }
         free(c);
     }
